@@ -595,15 +595,15 @@ Section Complete.
   Qed.
 
   (* the form of the requests gathered by Sync.children for a request without callback *)
-  Definition kidreq (p : list N) (s : sync) (cl : list (list N * node)) (x : list N * nreq) : Prop :=
-    exists cp h, x = (cp, mkNreq h None (Some p) 0 CbNone) /\ In (cp, NHash h) cl /\ has h (sc_db s) = false.
+  Definition kidreq (p : list N) (cb : cbkind) (s : sync) (cl : list (list N * node)) (x : list N * nreq) : Prop :=
+    exists cp h, x = (cp, mkNreq h None (Some p) 0 cb) /\ In (cp, NHash h) cl /\ has h (sc_db s) = false.
 
   Lemma children_loop_none p hash : forall cl s acc, sc_path s = false ->
     exists acc' rc, children_loop H s p hash CbNone cl acc = (s, acc', rc) /\
       (rc = ROk ->
         (forall cp h, In (cp, NHash h) cl -> has h (sc_db s) = true \/ In (cp, mkNreq h None (Some p) 0 CbNone) acc') /\
         (forall x, In x acc -> In x acc') /\
-        (forall x, In x acc' -> In x acc \/ kidreq p s cl x)).
+        (forall x, In x acc' -> In x acc \/ kidreq p CbNone s cl x)).
   Proof.
     induction cl as [|[cpath cn] rest IH]; intros s acc S0; cbn [children_loop].
     - exists acc, ROk. split; [reflexivity|]. intros _. split; [intros ? ? []|split; auto].
@@ -611,15 +611,15 @@ Section Complete.
           (rc = ROk ->
             (forall cp h, In (cp, NHash h) rest -> has h (sc_db s) = true \/ In (cp, mkNreq h None (Some p) 0 CbNone) acc') /\
             (forall x, In x acc0 -> In x acc') /\
-            (forall x, In x acc' -> In x acc0 \/ kidreq p s rest x))) by (intros; apply IH; exact S0).
-      assert (Hk : forall x, kidreq p s rest x -> kidreq p s ((cpath, cn) :: rest) x).
+            (forall x, In x acc' -> In x acc0 \/ kidreq p CbNone s rest x))) by (intros; apply IH; exact S0).
+      assert (Hk : forall x, kidreq p CbNone s rest x -> kidreq p CbNone s ((cpath, cn) :: rest) x).
       { intros x (cp & h & E1 & E2 & E3). exists cp, h. split; [exact E1|split; [right; exact E2|exact E3]]. }
       assert (Hskip : (forall h, cn <> NHash h) ->
         exists acc' rc, children_loop H s p hash CbNone rest acc = (s, acc', rc) /\
         (rc = ROk ->
           (forall cp h, In (cp, NHash h) ((cpath, cn) :: rest) -> has h (sc_db s) = true \/ In (cp, mkNreq h None (Some p) 0 CbNone) acc') /\
           (forall x, In x acc -> In x acc') /\
-          (forall x, In x acc' -> In x acc \/ kidreq p s ((cpath, cn) :: rest) x))).
+          (forall x, In x acc' -> In x acc \/ kidreq p CbNone s ((cpath, cn) :: rest) x))).
       { intros Hn. destruct (Hrest acc) as (acc' & rc & E & Sp). exists acc', rc. split; [exact E|].
         intros Hr. destruct (Sp Hr) as (A & B & C). split; [|split; [exact B|]].
         - intros cp h [X|X]; [inversion X; subst; exfalso; eapply Hn; reflexivity|apply A; exact X].
@@ -661,10 +661,10 @@ Section Complete.
   Lemma slack_fp0 s p : slack s (fp p 0) -> slack s zero.
   Proof. intros SL q rq E. specialize (SL q rq E). unfold fp, zero in *. destruct (beq q p); lia. Qed.
 
-  Lemma inv_schedule_all p cl0 s0 : forall reqs s s',
+  Lemma inv_schedule_all p cb cl0 s0 : forall reqs s s',
     invE (Some p) s -> slack s (fp p (length reqs)) -> reqT s -> has_data s p ->
-    (forall cp h, In (cp, NHash h) cl0 -> RN cp h CbNone) ->
-    (forall x, In x reqs -> kidreq p s0 cl0 x) ->
+    (forall cp h, In (cp, NHash h) cl0 -> RN cp h cb) ->
+    (forall x, In x reqs -> kidreq p cb s0 cl0 x) ->
     schedule_all s reqs = Some s' ->
     invE (Some p) s' /\ slack s' zero /\ reqT s' /\ same_store s s' /\
     (forall cp r, In (cp, r) reqs -> aget cp (nreqs s') = Some r) /\
@@ -675,7 +675,7 @@ Section Complete.
       split; [exact RT|]. split; [repeat split|]. split; [intros ? ? []|auto].
     - destruct (aget cp (nreqs s)) eqn:Ef; [discriminate|].
       destruct (Hk (cp, r) (or_introl eq_refl)) as (cp' & h & X & Hin & Hh). inversion X; subst cp' r.
-      set (r := mkNreq h None (Some p) 0 CbNone) in *.
+      set (r := mkNreq h None (Some p) 0 cb) in *.
       assert (AG : forall q y, aget q (nreqs s) = Some y -> aget q (nreqs (schedule_node s cp r)) = Some y).
       { intros q y Eq. unfold schedule_node; ssimpl. rewrite aget_aput. destruct (beq q cp) eqn:Eb; [|exact Eq].
         apply beq_eq in Eb. subst q. congruence. }
@@ -695,6 +695,109 @@ Section Complete.
       + intros cp1 r1 [Y|Y]; [|apply F; exact Y]. inversion Y; subst. apply G.
         unfold schedule_node; ssimpl. rewrite aget_aput, beq_refl. reflexivity.
       + intros q y Eq. apply G. apply AG. exact Eq.
+  Qed.
+
+  (* ================= with the account callback ================= *)
+  Lemma cntc_aput_new q h c (m : amap creq) :
+    (cntc q (aput h c m) <= cntc q m + occ q (cr_parents c))%nat.
+  Proof. unfold aput. rewrite cntc_cons. pose proof (cntc_adel_le q h m). lia. Qed.
+  Lemma cntc_aput_old q h old c (m : amap creq) p :
+    aget h m = Some old -> cr_parents c = cr_parents old ++ [p] ->
+    (cntc q (aput h c m) <= cntc q m + (if beq p q then 1 else 0))%nat.
+  Proof.
+    intros E Hp. unfold aput. rewrite cntc_cons, Hp, occ_app. pose proof (cntc_adel_found q h m old E).
+    simpl. lia.
+  Qed.
+
+  (* what the callbacks of the request p being expanded may change *)
+  Definition ext (p : list N) (s s' : sync) : Prop :=
+    same_store s s' /\
+    (forall q cp ch, pend_node s q cp ch -> pend_node s' q cp ch) /\
+    (forall q h, pend_code s q h -> pend_code s' q h) /\
+    (forall rp, aget p (nreqs s) = Some rp ->
+       exists rp', aget p (nreqs s') = Some rp' /\ nr_data rp' = nr_data rp /\
+                   nr_hash rp' = nr_hash rp /\ nr_cb rp' = nr_cb rp).
+  Lemma ext_refl p s : ext p s s.
+  Proof. split; [repeat split|]. split; [auto|]. split; [auto|]. intros rp E. exists rp. auto. Qed.
+  Lemma ext_trans p a b c : ext p a b -> ext p b c -> ext p a c.
+  Proof.
+    intros ((A1 & A2 & A3 & A4) & B1 & C1 & D1) ((A1' & A2' & A3' & A4') & B2 & C2 & D2).
+    split; [repeat split; congruence|]. split; [auto|]. split; [auto|].
+    intros rp E. destruct (D1 _ E) as (r1 & E1 & X1 & X2 & X3). destruct (D2 _ E1) as (r2 & E2 & Y1 & Y2 & Y3).
+    exists r2. repeat split; congruence.
+  Qed.
+
+  Lemma inv_sched_code e s h p path :
+    invE e s -> has_data s p -> invE e (schedule_code s h (mkCreq path None [p])).
+  Proof.
+    intros [S0 ND NE Z PA CP L C RT] HD. unfold schedule_code.
+    assert (G : forall m' q',
+      (forall h' c', In (h', c') m' -> (In (h', c') (creqs s) \/
+          (h' = h /\ forall x, In x (cr_parents c') -> x = p \/ exists old, aget h (creqs s) = Some old /\ In x (cr_parents old)))) ->
+      (forall q0 h0, pend_code s q0 h0 -> exists c, aget h0 m' = Some c /\ In q0 (cr_parents c)) ->
+      invE e (set_queue (set_creqs s m') q')).
+    { intros m' q' Hin Hpc. constructor; ssimpl; auto.
+      - intros h' c' q Hi Hq. destruct (Hin _ _ Hi) as [X|(-> & X)]; [eapply CP; eauto|].
+        destruct (X _ Hq) as [->|(old & E1 & E2)]; [exact HD|]. eapply CP; [apply aget_In; exact E1|exact E2].
+      - intros q Hq r b n cl E D1 D2 D3 cp cn Hi.
+        eapply kid_ok_mono; [| | | |eapply (L q Hq); eauto]; auto.
+        intros h0 P. right. exact (Hpc _ _ P). }
+    destruct (aget h (creqs s)) as [old|] eqn:Eo.
+    - change (set_creqs s ?m) with (set_queue (set_creqs s m) (queue s)). apply G.
+      + intros h' c' Hi. apply In_aput in Hi. destruct Hi as [X|[X _]]; [|auto]. inversion X; subst. right. split; [reflexivity|].
+        simpl. intros x Hx. apply in_app_iff in Hx. destruct Hx as [Hx|[Hx|[]]]; [right; eauto|left; auto].
+      + intros q0 h0 (c & E1 & E2). rewrite aget_aput. destruct (beq h0 h) eqn:Eq; [|eauto].
+        apply beq_eq in Eq. subst h0. rewrite Eo in E1. inversion E1; subst c. eexists. split; [reflexivity|].
+        simpl. apply in_app_iff. auto.
+    - apply G.
+      + intros h' c' Hi. apply In_aput in Hi. destruct Hi as [X|[X _]]; [|auto]. inversion X; subst. right. split; [reflexivity|].
+        simpl. intros x [Hx|[]]. auto.
+      + intros q0 h0 (c & E1 & E2). rewrite aget_aput. destruct (beq h0 h) eqn:Eq; [|eauto].
+        apply beq_eq in Eq. subst h0. congruence.
+  Qed.
+
+  Lemma slack_sched_code s h p path n :
+    slack s (fp p (S n)) -> slack (schedule_code s h (mkCreq path None [p])) (fp p n).
+  Proof.
+    intros SL q rq. unfold schedule_code. destruct (aget h (creqs s)) as [old|] eqn:Eo; ssimpl; cbn [cr_parents cr_path cr_data]; intros E.
+    - specialize (SL q rq E). pose proof (cntc_aput_old q h old (mkCreq (cr_path old) (cr_data old) (cr_parents old ++ [p])) (creqs s) p Eo eq_refl) as Le.
+      unfold fp in *. rewrite (beq_sym p q) in Le. destruct (beq q p); lia.
+    - specialize (SL q rq E). pose proof (cntc_aput_new q h (mkCreq path None [p]) (creqs s)) as Le. cbn [cr_parents occ] in Le.
+      unfold fp in *. rewrite (beq_sym p q) in Le. destruct (beq q p); lia.
+  Qed.
+
+  Lemma ext_sched_code p s h r : ext p s (schedule_code s h r).
+  Proof.
+    unfold schedule_code. destruct (aget h (creqs s)) as [old|] eqn:Eo.
+    - split; [repeat split|]. split; [auto|]. split; [|intros rp E; exists rp; auto].
+      intros q h0 (c & E1 & E2). unfold pend_code; ssimpl. rewrite aget_aput. destruct (beq h0 h) eqn:Eq; [|eauto].
+      apply beq_eq in Eq. subst h0. rewrite Eo in E1. inversion E1; subst c. eexists. split; [reflexivity|].
+      simpl. apply in_app_iff. auto.
+    - split; [repeat split|]. split; [auto|]. split; [|intros rp E; exists rp; auto].
+      intros q h0 (c & E1 & E2). unfold pend_code; ssimpl. rewrite aget_aput. destruct (beq h0 h) eqn:Eq; [|eauto].
+      apply beq_eq in Eq. subst h0. congruence.
+  Qed.
+
+  Lemma ext_upd p s k r r' :
+    aget k (nreqs s) = Some r -> nr_hash r' = nr_hash r -> nr_parent r' = nr_parent r ->
+    nr_cb r' = nr_cb r -> nr_data r' = nr_data r ->
+    ext p s (set_nreqs s (aput k r' (nreqs s))).
+  Proof.
+    intros Hk Hh Hp Hc Hd. split; [repeat split|]. split; [|split; [auto|]].
+    - intros q cp ch (rc & E1 & E2 & E3). unfold pend_node; ssimpl. rewrite aget_aput.
+      destruct (beq cp k) eqn:Eq; [|eauto]. apply beq_eq in Eq. subst cp.
+      rewrite Hk in E1. inversion E1; subst rc. exists r'. repeat split; congruence.
+    - intros rp E. ssimpl. rewrite aget_aput. destruct (beq p k) eqn:Eq; [|exists rp; auto].
+      apply beq_eq in Eq. subst k. rewrite Hk in E. inversion E; subst rp. exists r'. auto.
+  Qed.
+  Lemma ext_sched p s cp r : aget cp (nreqs s) = None -> ext p s (schedule_node s cp r).
+  Proof.
+    intros Hf. unfold schedule_node.
+    assert (AG : forall q y, aget q (nreqs s) = Some y -> aget q (aput cp r (nreqs s)) = Some y).
+    { intros q y E. rewrite aget_aput. destruct (beq q cp) eqn:Eq; [|exact E]. apply beq_eq in Eq. subst. congruence. }
+    split; [repeat split|]. split; [|split; [auto|]].
+    - intros q c ch (rc & E1 & E2 & E3). exists rc. split; [ssimpl; apply AG; exact E1|split; assumption].
+    - intros rp E. exists rp. ssimpl. split; [apply AG; exact E|auto].
   Qed.
 
   (* ---- a sync without leaf callback (one trie; e.g. a storage trie) ---- *)
@@ -773,9 +876,9 @@ Section Complete.
       { intros q y. unfold s2; ssimpl. rewrite aget_aput. destruct (beq q path) eqn:Eq; [|apply RT1].
         apply beq_eq in Eq. subst q. intros Y; inversion Y; subst y. apply (RT1 _ _ E1). }
       assert (HD2 : has_data s2 path) by (exists r3, data; split; [exact E2|reflexivity]).
-      assert (Hkr : forall x, In x (rev reqs) -> kidreq path s1 cl x).
+      assert (Hkr : forall x, In x (rev reqs) -> kidreq path CbNone s1 cl x).
       { intros x Hx. apply in_rev in Hx. destruct (Sp3 x Hx) as [[]|X]. exact X. }
-      destruct (inv_schedule_all path cl s1 (rev reqs) s2 s3 I2 SL2 RT2 HD2 Hrn Hkr Esa) as (A & B & C & D & F & G).
+      destruct (inv_schedule_all path CbNone cl s1 (rev reqs) s2 s3 I2 SL2 RT2 HD2 Hrn Hkr Esa) as (A & B & C & D & F & G).
       split; [|split; [exact B|exact C]].
       eapply inv_close; [exact A|].
       apply (Lclose s3 eq_refl r3 (G _ _ E2) eq_refl Hcb).
